@@ -1159,6 +1159,17 @@ VARIANTS += [
 ]
 
 
+# round B8 (second pass: C05, C06, C08, C20, C15, C11, C02, C10)
+VARIANTS += [
+    dict(prop="C05", name="b8-h1-table-push-loop", benign=True,
+         edits=[dict(file='ipa-core/src/protocol/ipa_prf/shuffle/sharded.rs', find='\n    // set our shares\n    let ctx = ctx.narrow(&ShuffleStep::PseudoRandomTable);\n    let res = (0..sz)\n        .map(|i| {\n            // This may be confusing as paper specifies Ã and B̃ as independent tables, but\n            // there is really no reason to generate them using unique PRSS keys.\n            let (a, b) = ctx.prss().generate(RecordId::from(i));\n\n            S::new(a, b)\n        })\n        .collect();\n\n    Ok((res, IntermediateShuffleMessages::H1 { x1 }))\n}\n', replace='\n    // set our shares\n    let ctx = ctx.narrow(&ShuffleStep::PseudoRandomTable);\n    let mut res = Vec::with_capacity(sz);\n    for i in 0..sz {\n        // This may be confusing as paper specifies Ã and B̃ as independent tables, but\n        // there is really no reason to generate them using unique PRSS keys.\n        let (a, b) = ctx.prss().generate(RecordId::from(i));\n\n        res.push(S::new(a, b));\n    }\n\n    Ok((res, IntermediateShuffleMessages::H1 { x1 }))\n}\n')]),
+    dict(prop="C05", name="b8-tags-zipped-to-rows", benign=True,
+         edits=[dict(file='ipa-core/src/protocol/ipa_prf/shuffle/malicious.rs', find='                    .into_unpacking_iter()\n                    .collect::<Vec<_>>();\n            // Join tags to rows\n            Ok((0..TAG_CHUNK)\n                .map(|i| concatenate_row_and_tag(&chunk[i], &tags[i]))\n                .collect::<Vec<_>>())\n        }),\n    )\n', replace='                    .into_unpacking_iter()\n                    .collect::<Vec<_>>();\n            // Join tags to rows\n            debug_assert_eq!(tags.len(), TAG_CHUNK);\n            Ok(chunk\n                .iter()\n                .zip(&tags)\n                .map(|(row, tag)| concatenate_row_and_tag(row, tag))\n                .collect::<Vec<_>>())\n        }),\n    )\n')]),
+    dict(prop="C05", name="h1-push-loop-swaps-shares", expect=["ALGEBRA", ""],
+         edits=[dict(file='ipa-core/src/protocol/ipa_prf/shuffle/sharded.rs', find='\n    // set our shares\n    let ctx = ctx.narrow(&ShuffleStep::PseudoRandomTable);\n    let res = (0..sz)\n        .map(|i| {\n            // This may be confusing as paper specifies Ã and B̃ as independent tables, but\n            // there is really no reason to generate them using unique PRSS keys.\n            let (a, b) = ctx.prss().generate(RecordId::from(i));\n\n            S::new(a, b)\n        })\n        .collect();\n\n    Ok((res, IntermediateShuffleMessages::H1 { x1 }))\n}\n', replace='\n    // set our shares\n    let ctx = ctx.narrow(&ShuffleStep::PseudoRandomTable);\n    let mut res = Vec::with_capacity(sz);\n    for i in 0..sz {\n        // This may be confusing as paper specifies Ã and B̃ as independent tables, but\n        // there is really no reason to generate them using unique PRSS keys.\n        let (a, b) = ctx.prss().generate(RecordId::from(i));\n\n        res.push(S::new(b, a));\n    }\n\n    Ok((res, IntermediateShuffleMessages::H1 { x1 }))\n}\n')]),
+]
+
+
 VARIANTS += [
     dict(prop="C03", name="hash-skips-first-element", expect=['HASH-cover', 'iterates-its-whole-argument'],
          edits=[dict(file="ipa-core/src/helpers/hashing.rs", find='    for x in input {\n        is_empty = false;\n        x.serialize(&mut buf);\n        sha.update(&buf);\n    }', replace='    for x in input.into_iter().skip(1) {\n        is_empty = false;\n        x.serialize(&mut buf);\n        sha.update(&buf);\n    }')]),
